@@ -20,6 +20,7 @@ answer of legs Pr and Pl, implies them up to the table facts listed at `chain_hy
 -/
 import RegexVerif.Props.C10Parser
 import RegexVerif.Lemmas.ChainBridge
+import RegexVerif.Lemmas.ParserShape3
 
 namespace RegexVerif.Props.C10
 open RegexVerif RegexVerif.Reduce RegexVerif.Lemmas.Chain
@@ -92,6 +93,45 @@ theorem compile_and_run_no_fault_partial (pattern : List Nat) (opts : Parser.Opt
   · have hc := compilePattern_error rorc _ c hp
     rw [hc.1, hc.2]
     exact ⟨⟨c, rfl⟩, ⟨c, rfl⟩⟩
+
+/-- **J2, the unconditional part: the raw tree has the parser's node shapes, except for the condition of an ExprCond.**
+    For every pattern, option set, oracle and every fuel above the pattern length: if `Parse` returns a tree, every node of
+    it (`Parser.shp`) has a known node type with the child count the reducer assumes — leaves have no children, a
+    Loop / Lazyloop / Capture / Group / lookaround / Atomic exactly one, an Alternate at least one unless it is the empty
+    alternation of `()`, a BackRefCond one or two, an ExprCond one to three (a Concatenate any number).  The one thing
+    NOT proved is that an ExprCond has at least TWO children, i.e. that it always receives its condition (`condsOK`):
+    that is what /repo debc02b (D50) repaired, and it needs the position-exact argument "after `(?(` the next turn opens
+    the condition group".  Proof: a tree invariant (`Parser.TreeInv`: group / alternation / concatenation under
+    construction, the unit, every frame of the group stack) through every tree-building operation, in a
+    partial-correctness logic over the parser monad (`Lemmas/ParserShape*.lean`); the scanners contribute value facts
+    only (`ret_scanBackslash`, `ret_scanGroupOpen`, …: a leaf / a childless group node, whatever the state). -/
+theorem parse_weak_shape (pat : List Nat) (opts : Parser.Opts) (mco : Bool) (orc : Parser.Oracles) (fuel : Nat)
+    (hf : pat.length < fuel) (t : Parser.RawTree)
+    (h : Parser.parseFuel { pat := pat, opts := opts, mco := mco, orc := orc } fuel = .ok t) : Parser.shp t.root = true :=
+  Parser.shp_parseFuel _ fuel hf t h
+
+/-- **J2 up to the residual condition**: `parse E = .ok t → condsOK t.root → RawShapeOk t` -/
+theorem parse_shape_partial (E : Parser.Env) (t : Parser.RawTree) (h : Parser.parse E = .ok t)
+    (hc : Parser.condsOK t.root = true) : RawShapeOk t = true :=
+  Parser.rawShapeOk_of_parse E t h hc
+
+/-- **The chain with J2 reduced to its residue.**  As `compile_and_run_no_fault_partial`, with `RawShapeOk` replaced by
+    what is left of it: every ExprCond of the raw tree has its condition (`condsOK`). -/
+theorem compile_and_run_no_fault_partial2 (pattern : List Nat) (opts : Parser.Opts) (mco : Bool)
+    (orc : Parser.Oracles) (rorc : Orc)
+    (hCond : ∀ t, Parser.parse { pat := pattern, opts := opts, mco := mco, orc := orc } = .ok t → Parser.condsOK t.root = true)
+    (hJ3 : ∀ t, Parser.parse { pat := pattern, opts := opts, mco := mco, orc := orc } = .ok t → PrescanAgrees t = true) :
+    (match compilePattern rorc { pat := pattern, opts := opts, mco := mco, orc := orc } with
+     | .error e => ∃ code, e = .parse code
+     | .ok prog => ∀ (env : VM.Env) (pos : Int) (fuel : Nat), 0 ≤ pos → pos ≤ env.len →
+         ∃ s0, VM.init prog pos = .ok s0 ∧ ∀ f, (VM.run prog env fuel s0).1 ≠ .fault f) ∧
+    (match compilePatternQuick rorc { pat := pattern, opts := opts, mco := mco, orc := orc } with
+     | .error e => ∃ code, e = .parse code
+     | .ok none => True
+     | .ok (some qp) => ∀ (env : VM.Env) (pos : Int) (fuel : Nat), 0 ≤ pos → pos ≤ env.len →
+         ∃ s0, VM.init qp pos = .ok s0 ∧ ∀ f, (VM.run qp env fuel s0).1 ≠ .fault f) :=
+  compile_and_run_no_fault_partial pattern opts mco orc rorc
+    (fun t ht => Parser.rawShapeOk_of_parse _ t ht (hCond t ht)) hJ3
 
 /-- the same from the evaluated check -/
 theorem compile_and_run_no_fault_checked (E : Parser.Env) (rorc : Orc) (h : chainHypB E = true) :
@@ -179,6 +219,15 @@ example : ∃ s0, VM.init (Writer.emit (treeInfo false chainDemo) (reduceTree ch
     ∀ f, (VM.run (Writer.emit (treeInfo false chainDemo) (reduceTree chainOrc true chainDemo)) Lemmas.VM.demoEnv 1000 s0).1 ≠ .fault f :=
   emitted_no_fault_of_caps _ _ (reduceTree_keeps_caps chainOrc true false chainDemo (by decide) (by decide)).1
     (reduceTree_keeps_caps chainOrc true false chainDemo (by decide) (by decide)).2 Lemmas.VM.demoEnv 1 (by decide) (by decide) 1000
+
+/-- the residual condition and the weak shape, evaluated: they hold on both trees; an ExprCond with one child — the tree
+    `(?<n>a)(?(?P=n)b)` had before /repo debc02b — has the weak shape and fails `condsOK` and `RawShapeOk` -/
+example : Parser.condsOK chainDemo.root = true ∧ Parser.shp chainDemo.root = true ∧
+    Parser.condsOK chainDemoSparse.root = true ∧ Parser.shp chainDemoSparse.root = true := by decide
+example : Parser.shp (rawGroup .capture 0 (-1) [rawN .exprCond 0 0 [rawN .concatenate 0 0 []]]) = true ∧
+    Parser.condsOK (rawGroup .capture 0 (-1) [rawN .exprCond 0 0 [rawN .concatenate 0 0 []]]) = false ∧
+    RawShapeOk { chainDemo with root := rawGroup .capture 0 (-1) [rawN .exprCond 0 0 [rawN .concatenate 0 0 []]] } = false := by
+  decide
 
 /-- the whole chain on pattern text: for the empty pattern and for `a` the kernel evaluates the parser and both
     hypotheses (`(a)` already takes minutes), so `compile_and_run_no_fault_checked` applies to them without
